@@ -6,6 +6,20 @@ ENGINES = [
 ]
 NOTES = 'All checks: ./check <ID> [--tier quick|thorough] [--replay FILE]; exit 0 held / 1 violation / 2 harness problem or inconclusive. See DESIGN.md.'
 CHECKS = {
+ 'C03': {
+  'engine': 'forkrng+oracles',
+  'technique': 'Hypothesis-generated model specifications and walks; exact step law (forking RNG incl. inverse-CDF scan and rejection sampling) vs specified CTMC rate shares',
+  'design_ref': 'DESIGN.md section 3 C03',
+  'text': 'Generated specifications (2-4 statuses, spontaneous and induced transitions with rate, weight_label or rate_function+kwargs) on directed and undirected weighted contact networks n<=5: at every step of a generated walk (<=10 events) and on complete history trees of the canonical SIS/SIR/SIRS/SEIR/competing/cooperating/vaccination models, the exact law over (node, new status, inducing neighbour), the clock rate and the array-mode counts equal the specified chain; an event outside the enabled set or a stale candidate shows up as a wrong share or exception.',
+  'note': 'Trusts the forking random source. Domain: sortable string statuses, no self-loops; with full data all statuses are listed in return_statuses.',
+ },
+ 'C15': {
+  'engine': 'forkrng+oracles',
+  'technique': 'Hypothesis-generated rate/chooser/influence callbacks from a grammar + walks; exact next-node law (forking RNG) vs harness-evaluated rates; exhaustive history trees for threshold/SIR/two-hop models',
+  'design_ref': 'DESIGN.md section 3 C15',
+  'text': 'User callbacks are generated from a grammar (const/threshold/linear rules over 1- and 2-hop balls); the harness evaluates the same rules on its own ground-truth statuses and at every step compares the exact selection law, the clock rate, the new status and the termination condition (all rates zero or horizon, incl. tmax=inf) with them.',
+  'note': 'Trusts the forking random source; influence set covers the dependence radius (property precondition); callbacks pure.',
+ },
  'C01': {
   'engine': 'forkrng+oracles+mc',
   'technique': 'exact step-law extraction (forking RNG, exhaustive history trees n<=3/4 + Hypothesis walks) vs CTMC rate shares; Monte-Carlo chi-square vs master equation for fast_SIR',
